@@ -362,6 +362,24 @@ func genPlan(seed uint64, idx int) *Plan {
 		}
 		g.hosts = append(g.hosts, h)
 	}
+	// One plan in ten has an origin whose host NAME is spelt like the text the
+	// Transport derives from another origin (scheme, host, port): two distinct
+	// origins all the same, each with its own certificate and home.
+	var keyHost, keyPeer *hostInfo
+	if g.chance(1, 10) {
+		h0 := g.hosts[0]
+		nd0 := &p.Nodes[h0.home]
+		if !slices.Contains(h0.ports, 8443) {
+			h0.ports = append(h0.ports, 8443)
+		}
+		nd0.TLSPorts = addPort(nd0.TLSPorts, 8443)
+		kh := &hostInfo{name: fmt.Sprintf("_8443._https.%s._", h0.name), home: r.IntN(nn)}
+		kh.addrName = kh.name
+		nk := &p.Nodes[kh.home]
+		nk.CertNames = append(nk.CertNames, kh.name)
+		g.hosts = append(g.hosts, kh)
+		keyHost, keyPeer = kh, h0
+	}
 	for i := range p.Nodes {
 		if len(p.Nodes[i].CertNames) == 0 {
 			p.Nodes[i].CertNames = []string{fmt.Sprintf("unused%d.test", i)}
@@ -450,6 +468,9 @@ func genPlan(seed uint64, idx int) *Plan {
 
 	// requests
 	nr := core.Pick(r, []int{1, 2, 3, 3, 4, 4, 5, 6, 7, 8})
+	if keyHost != nil {
+		nr = max(nr, 3)
+	}
 	for i := 0; i < nr; i++ {
 		var q Req
 		if i > 0 && g.chance(3, 10) {
@@ -490,8 +511,15 @@ func genPlan(seed uint64, idx int) *Plan {
 				}
 			}
 		}
+		if keyHost != nil && i < 3 {
+			// the two look-alike origins, one after the other, then the first again
+			q = Req{Scheme: "https", Host: keyPeer.name, Port: 8443}
+			if i == 1 {
+				q = Req{Scheme: "https", Host: keyHost.name, Port: -1}
+			}
+		}
 		q.Path = fmt.Sprintf("/r%d?x=%d", i, r.IntN(100))
-		if g.chance(3, 20) {
+		if g.chance(3, 20) && (keyHost == nil || i >= 3) {
 			switch r.IntN(4) {
 			case 0:
 				q.HostOverride = "override.invalid"
